@@ -119,6 +119,8 @@ pub struct SimCtx {
     /// set by the watchdog when it gives up on this process: the runaway thread is parked at
     /// its next sandbox call instead of consuming memory and CPU for the rest of the run
     pub abandoned: Arc<std::sync::atomic::AtomicBool>,
+    /// set by the shim when the process exceeds `SYSCALL_LIMIT`
+    pub runaway: Arc<std::sync::atomic::AtomicBool>,
     /// file timestamps come from a simulated clock: 0 = the file system's own, 1 = stands still,
     /// 2 = runs backwards, 3 = skewed per file (see `freeze_times`)
     pub clock_mode: u8,
@@ -146,6 +148,7 @@ impl SimCtx {
             fds: Vec::new(),
             dirs: Vec::new(),
             abandoned: Arc::new(std::sync::atomic::AtomicBool::new(false)),
+            runaway: Arc::new(std::sync::atomic::AtomicBool::new(false)),
             clock_mode: 0,
             clock_seed: 0,
             threads: None,
@@ -260,8 +263,19 @@ enum Pre {
 
 /// Common prologue of every simulated sandbox call: scheduling gate, sequence number,
 /// crash point, fault lookup.
+/// No operation of the compiler performs anywhere near this many sandbox calls (the largest
+/// take a few thousand): a process that does is running away (e.g. retrying a read for ever).
+pub const SYSCALL_LIMIT: u32 = 1_000_000;
+
 fn pre(c: &mut SimCtx, call: Call) -> Pre {
     if c.abandoned.load(Ordering::Relaxed) {
+        loop {
+            std::thread::park();
+        }
+    }
+    if c.seq >= SYSCALL_LIMIT {
+        // tell the watchdog at once, and stop consuming memory and CPU
+        c.runaway.store(true, Ordering::Relaxed);
         loop {
             std::thread::park();
         }
@@ -303,6 +317,9 @@ fn log(c: &mut SimCtx, call: Call, path: String, req: i64, res: i64, fault: Opti
         c.fired.push(f.clone());
     }
     let seq = c.seq.saturating_sub(1);
+    if c.log.len() >= 200_000 {
+        return;
+    }
     c.log.push(Event {
         seq,
         pid: c.pid,
